@@ -120,6 +120,32 @@ fn run_check(a: &Artifact, data: &[u8]) -> Outcome {
     }
 }
 
+/// Application-supplied validation hooks: the same MD5 judgement as the stock hooks, but a mismatch is refused with an
+/// error instead of an "invalid" verdict.
+struct RefusingHooks {
+    kind: u8,
+}
+
+#[async_trait::async_trait]
+impl ValidationHooks for RefusingHooks {
+    async fn validate_content(&self, content_key: &ContentKey, data: &[u8]) -> cascette_cache::CacheResult<cascette_cache::validation::ValidationResult> {
+        if md5::compute(data).0 == *content_key.as_bytes() {
+            return Ok(cascette_cache::validation::ValidationResult::valid(Duration::ZERO, Duration::ZERO, data.len()));
+        }
+        Err(match self.kind {
+            1 => cascette_cache::CacheError::ContentValidationFailed("content does not hash to its key".to_string()),
+            2 => cascette_cache::CacheError::Backend("validator: content does not hash to its key".to_string()),
+            _ => cascette_cache::CacheError::LockTimeout("validator gave up on content that does not hash to its key".to_string()),
+        })
+    }
+}
+
+/// Artifact kinds whose checksum is documented to be taken over EVERY byte of the declared region (LRU checkpoint: MD5
+/// over the whole file with the hash field zeroed; encoding table: MD5 of the whole page). For these "any change to
+/// the protected bytes makes the load fail" is judged literally for in-place changes, also when the changed byte is
+/// not part of the logical content (reserved fields, padding).
+const EVERY_BYTE_COVERED: &[&str] = &["lru-file", "lru-file-via-load_from_disk", "encoding", "encoding-via-parse_blte"];
+
 #[allow(clippy::too_many_arguments)]
 fn judge(ctx: &Ctx, t: &mut Tally, a: &Artifact, class: &str, part: &str, mutated: &[u8], describe: impl Fn() -> Value) {
     if mutated == a.bytes.as_slice() {
@@ -140,6 +166,18 @@ fn judge(ctx: &Ctx, t: &mut Tally, a: &Artifact, class: &str, part: &str, mutate
             ctx.violation(
                 &format!("C07|{}|{class}|accepted-although-stored-checksum-changed|{part}", a.kind),
                 "the stored checksum was changed in place and the artifact still loaded as good",
+                json!({"artifact": a.kind, "instance": a.instance, "mutation_class": class, "region_part": part, "mutation": describe(),
+                       "original_hex": if a.bytes.len() <= 4096 { hex::encode(&a.bytes) } else { hex_short(&a.bytes, 64) },
+                       "mutated_hex": if mutated.len() <= 4096 { hex::encode(mutated) } else { hex_short(mutated, 64) }}),
+            );
+        }
+        Outcome::AcceptedEqual if EVERY_BYTE_COVERED.contains(&a.kind) && (class == "bitflip" || class.starts_with("subst-")) => {
+            // the checksum of these artifacts is taken over every byte of the declared region: a byte that can be
+            // changed in place without the load failing is no longer protected, whether or not it is exposed
+            t.add(a.kind, class, "ACCEPTED-ALTHOUGH-PROTECTED-BYTE-CHANGED");
+            ctx.violation(
+                &format!("C07|{}|{class}|accepted-although-protected-byte-changed|{part}", a.kind),
+                "a byte inside the region the checksum is taken over was changed in place and the artifact still loaded as good",
                 json!({"artifact": a.kind, "instance": a.instance, "mutation_class": class, "region_part": part, "mutation": describe(),
                        "original_hex": if a.bytes.len() <= 4096 { hex::encode(&a.bytes) } else { hex_short(&a.bytes, 64) },
                        "mutated_hex": if mutated.len() <= 4096 { hex::encode(mutated) } else { hex_short(mutated, 64) }}),
@@ -1882,7 +1920,15 @@ async fn multilayer_histories(ctx: &Ctx, histories: usize, stream: u64) {
                 return;
             }
         };
-        let hooks: Arc<dyn ValidationHooks> = Arc::new(Md5ValidationHooks::new());
+        // the library's MD5 hooks, or hooks supplied by the application: judge by MD5 like the stock ones but REFUSE a
+        // mismatch by returning an error (of several kinds) instead of an "invalid" verdict — either way the read must
+        // not hand the bytes out
+        let hook_kind = (h / 3) % 4;
+        let hooks: Arc<dyn ValidationHooks> = match hook_kind {
+            0 => Arc::new(Md5ValidationHooks::new()),
+            k => Arc::new(RefusingHooks { kind: k as u8 }),
+        };
+        ctx.obs(&format!("cache.MultiLayerCacheImpl.hooks.{}", ["Md5ValidationHooks", "harness:mismatch->Err(ContentValidationFailed)", "harness:mismatch->Err(Backend)", "harness:mismatch->Err(LockTimeout)"][hook_kind as usize]), 1);
         cache.set_validation_hooks(Some(hooks));
         let layers = cache.layer_count();
         let data = contents(&mut rng);
